@@ -80,7 +80,10 @@ def bootstrap():
     atexit.register(_cleanup_scratch, os.getpid(), _SCRATCH)
     import warnings
 
-    warnings.filterwarnings("ignore")
+    # Quiet, but without touching the warning *filters*: whether a warning is issued must stay exactly what the code
+    # under test (and Python's defaults) make it - C20 asks "does the user get a warning" and a process-wide filter
+    # installed by the harness would answer for the library.
+    warnings.showwarning = lambda *a, **k: None
     import openaerostruct
 
     f = os.path.realpath(openaerostruct.__file__)
@@ -89,9 +92,8 @@ def bootstrap():
     from . import omdao_patch
 
     omdao_patch.apply()
-    import openmdao.api  # noqa: F401  (installs its own warning filters; ours must come after)
+    import openmdao.api  # noqa: F401
 
-    warnings.filterwarnings("ignore")
     _BOOTSTRAPPED = True
 
 
